@@ -360,6 +360,44 @@ Theorem C11_view_grid :
 Proof. exact (conj q_view_same_grid q_view_other_grid). Qed.
 Print Assumptions C11_view_grid.
 
+(* ---- augmented assignments on scaled views: las.x += d, las.points.x -= d, las['x'] *= d, las.x[idx] /= d ... ---- *)
+(* in the source neither ArrayView nor ScaledArrayView defines an in-place operator, and the binary operators of a view are plain
+   arithmetic on the coordinates it presents (np.array(self) <op> other): Python evaluates `view op d`, then assigns the result *)
+Theorem C11_inplace_operators :
+  gen_view_inplace_falls_back = true
+  /\ (forall x y, f_view_op BAdd x y = f_add x y) /\ (forall x y, f_view_op BSub x y = f_sub x y)
+  /\ (forall x y, f_view_op BMul x y = f_mul x y) /\ (forall x y, f_view_op BDiv x y = f_div x y)
+  /\ (forall x y, q_view_op BAdd x y = x + y)%Q /\ (forall x y, q_view_op BSub x y = x - y)%Q
+  /\ (forall x y, q_view_op BMul x y = x * y)%Q /\ (forall x y, q_view_op BDiv x y = x / y)%Q.
+Proof. exact view_ops_shape. Qed.
+Print Assumptions C11_inplace_operators.
+
+(* hence every in-place route IS the assignment, by the same route, of the presented coordinates combined with the operand(s):
+   C11_assign_* (nearest integers under the header's scaling or OverflowError, nothing stored on error), C11_session_no_wrap
+   (every integer fits after ANY history that contains such operations) apply to it as to any other value (any arithmetic) *)
+Theorem C11_inplace_is_assignment : forall T present store restore teqb d ss a idx g ds,
+  let v := VSelfOp a idx g ds in
+  let vals := map2 g (pick (presented T present d (base ss) a) d idx) ds in
+  sstep T present store restore teqb d ss (SAttr a v) = with_base T ss (step T present store restore teqb d (base ss) (Assign a vals))
+  /\ sstep T present store restore teqb d ss (SItem a v) = with_base T ss (lasdata_assign T store d false (base ss) a vals)
+  /\ sstep T present store restore teqb d ss (SRecAttr a v) = with_base T ss (step T present store restore teqb d (base ss) (RecAssign a vals))
+  /\ sstep T present store restore teqb d ss (SView a idx v) = with_base T ss (assign_view T store d (base ss) a idx vals).
+Proof. exact inplace_routes. Qed.
+Print Assumptions C11_inplace_is_assignment.
+
+(* a non-finite operand (nan, +-inf) on at least one point: whatever the coordinates, the operator and the route, the result is
+   OverflowError; the record-level routes leave the whole LasData as it was, the LasData-level routes (which first take the
+   header's scaling / may grow the record) leave every stored integer as it was.  (None is the model's one non-finite value; for
+   `/=` it stands for nan: x / +-inf is the finite +-0, i.e. x * 0.  A zero divisor gives None as well: f_div x (Some 0) = None.) *)
+Theorem C11_inplace_nonfinite : forall ss a i ir b,
+  let v := VSelfOp a (i :: ir) (f_view_op b) (repeat None (length (i :: ir))) in
+  (let r := f_sstep ss (SRecAttr a v) in base (fst r) = base ss /\ snd r = OErr EOverflow)
+  /\ (let r := f_sstep ss (SView a (i :: ir) v) in base (fst r) = base ss /\ snd r = OErr EOverflow)
+  /\ (let r := f_sstep ss (SAttr a v) in ints (base (fst r)) = ints (base ss) /\ snd r = OErr EOverflow)
+  /\ (let r := f_sstep ss (SItem a v) in ints (base (fst r)) = ints (base ss) /\ snd r = OErr EOverflow).
+Proof. exact f_inplace_nonfinite. Qed.
+Print Assumptions C11_inplace_nonfinite.
+
 (* a concrete instance: header scale replaced (1e-2 -> 1e-3 as rationals), x assigned (the record takes the header's
    arrays), offset edited in place (seen through the alias), a write that rescales, a change_scaling that overflows,
    and the regression witness of the old unsound check in binary64 (v = 0x1.dcd650112e0bfp+29, s = 1e-9, o = 1e9) *)
@@ -391,6 +429,12 @@ Example C11_nonvacuous :
   /\ (let e0 := init Q [1 # 100; 1 # 100; 1 # 100]%Q [1200; 0; 0]%Q [[0]; [0]; [0]] in
       ints (base (fst (q_sstep (mksst e0 None) (SAttr 0%nat (VOther [120001] (1 # 100)%Q 0%Q))))) = [[1]; [0]; [0]]
       /\ snd (q_sstep (mksst e0 None) (SItem 0%nat (VOther [2147483647] (1 # 100)%Q (4000 # 1)%Q))) = OErr EOverflow)
+  (* las.x += 1 with the first point 50 steps of 1/100 below the top of the window: OverflowError, not a wrapped integer;
+     las.x += 1/5 fits: both integers move by 20 *)
+  /\ (let e0 := init Q [1 # 100; 1 # 100; 1 # 100]%Q [0; 0; 0]%Q [[2147483597; 5]; [0; 0]; [0; 0]] in
+      snd (q_sstep (mksst e0 None) (SAttr 0%nat (VSelfOp 0%nat [0; 1]%nat (q_view_op BAdd) [1; 1]%Q))) = OErr EOverflow
+      /\ ints (base (fst (q_sstep (mksst e0 None) (SAttr 0%nat (VSelfOp 0%nat [0; 1]%nat (q_view_op BAdd) [1 # 5; 1 # 5]%Q)))))
+         = [[2147483617; 25]; [0; 0]; [0; 0]])
   /\ f_store (Some (Qmake 0x1dcd650112e0bf (Z.to_pos (2 ^ 23)))) (Some (Qmake 0x112e0be826d695 (Z.to_pos (2 ^ 82))))
              (Some (inject_Z 1000000000)) = Some 2147483706
   /\ f_store_checked (Some (Qmake 0x1dcd650112e0bf (Z.to_pos (2 ^ 23)))) (Some (Qmake 0x112e0be826d695 (Z.to_pos (2 ^ 82))))
